@@ -131,22 +131,44 @@ def schema_sx(s: Any, top: bool = False) -> str:
         # additionalProperties, at most one bare {"required": [...]}
         if set(s) - {"allOf", "title", "definitions", "x-draft4"}:
             raise Unmodelled("allOf with sibling keywords")
-        refs, props, req, xreq = [], None, [], []
-        for part in s["allOf"]:
-            if set(part) == {"$ref"}:
-                if not part["$ref"].startswith("#/definitions/"):
-                    raise Unmodelled("non-local ref")
-                refs.append(part["$ref"].rsplit("/", 1)[1])
-            elif set(part) == {"required"}:
-                xreq += list(part["required"])
-            elif part.get("type") == "object" and set(part) <= {"type", "properties", "required"} and props is None:
-                props = part.get("properties", {})
-                req = list(part.get("required", []))
-            else:
-                raise Unmodelled("allOf part outside the modelled shape")
+        # `_parse_all_of_item` walks the members depth first: a `$ref` member is a base class, an inline member gives
+        # its own fields (its `required` marks THOSE fields) and is then searched for a nested `allOf`; a member
+        # without fields contributes its `required` to the allOf-level list. So nested `allOf`s (with or without
+        # sibling `properties`) flatten — in that order — into the one shape the Lean `Schema.allOf` has. The
+        # flattening is done here (bridge); `sem.tr` / `sem.valid` / `sem.accepts` compare its result with the real
+        # parser, jsonschema and the exec'd classes. A nested oneOf / anyOf is outside the model.
+        refs, props, req, xreq = [], {}, [], []
+
+        def walk(parts: list) -> None:
+            for part in parts:
+                if not isinstance(part, dict):
+                    raise Unmodelled("allOf part outside the modelled shape")
+                if set(part) == {"$ref"}:
+                    if not part["$ref"].startswith("#/definitions/"):
+                        raise Unmodelled("non-local ref")
+                    refs.append(part["$ref"].rsplit("/", 1)[1])
+                    continue
+                if set(part) & {"oneOf", "anyOf"}:
+                    raise Unmodelled("allOf part with a nested oneOf/anyOf")
+                if set(part) - {"type", "properties", "required", "allOf"} or part.get("type") not in (None, "object"):
+                    raise Unmodelled("allOf part outside the modelled shape")
+                own = part.get("properties") or {}
+                if own:
+                    if set(own) & set(props):
+                        raise Unmodelled("allOf parts declaring the same member")
+                    if set(part.get("required", [])) - set(own):
+                        raise Unmodelled("allOf part whose required names a member of another part")
+                    props.update(own)
+                    req.extend(part.get("required", []))
+                elif part.get("required"):
+                    xreq.extend(part["required"])
+                if "allOf" in part:
+                    walk(part["allOf"])
+
+        walk(s["allOf"])
         if not refs:
             raise Unmodelled("allOf without $ref part")
-        ps = " ".join(f"({hx(k)} {schema_sx(v)})" for k, v in (props or {}).items())
+        ps = " ".join(f"({hx(k)} {schema_sx(v)})" for k, v in props.items())
         return f"(allOf ({' '.join(hx(r) for r in refs)}) ({ps}) ({' '.join(hx(k) for k in req)}) ({' '.join(hx(k) for k in xreq)}))"
     if "discriminator" in s:
         return disc_sx(s)
@@ -189,8 +211,22 @@ def schema_sx(s: Any, top: bool = False) -> str:
         if set(s) & {"properties", "items", "additionalProperties", "minItems", "maxItems", "required"}:
             raise Unmodelled("scalar with container keywords")
         return f"(scalar {t} {1 if nullable else 0} {bounds_sx(s)})"
+    if nullable and t == "object" and not s.get("properties"):
+        # a free-form / map object behind a nullable type list: `Schema.ndict` (the place, document or not, is the
+        # `ctx` of `tr`: no `top` distinction here — there is no class)
+        if set(s) & {"items", "minimum", "maximum", "pattern", "minLength", "maxLength", "minItems", "maxItems"}:
+            raise Unmodelled("object with foreign keywords")
+        if s.get("required"):
+            raise Unmodelled("required without properties")
+        ap = s.get("additionalProperties")
+        if ap is False:
+            raise Unmodelled("nullable closed object without properties")
+        return f"(ndict {schema_sx(ap) if isinstance(ap, dict) else 'any'})"
     if nullable:
-        raise Unmodelled("nullable container")
+        # the null of an array type list is dropped in nested places (known finding C03-nullable-array-nested); a
+        # nullable object with members is a class marked `nullable` whose references are written Optional[...] by the
+        # writer, after stage 1: both are outside the Lean model and covered by the family campaign end to end
+        raise Unmodelled("nullable array" if t == "array" else "nullable object with members")
     if t == "array":
         if set(s) & {"properties", "additionalProperties", "minimum", "maximum", "pattern", "minLength", "maxLength", "required"}:
             raise Unmodelled("array with foreign keywords")
@@ -458,6 +494,31 @@ def _parser(doc: dict, style: str, routing: str, extra: dict | None = None):
     return p
 
 
+def _openapi_parser(spec: dict, style: str, routing: str, extra: dict | None = None):
+    """the real OpenAPI parser (scopes schemas + paths + parameters) after `parse_raw()`"""
+    from datamodel_code_generator import OpenAPIScope
+    from datamodel_code_generator.model import pydantic as p1
+    from datamodel_code_generator.model import pydantic_v2 as p2
+    from datamodel_code_generator.parser.openapi import OpenAPIParser
+
+    mod = p1 if style == "v1" else p2
+    opts = {"contype": {}, "field": {"field_constraints": True}, "annotated": {"field_constraints": True, "use_annotated": True}}[routing]
+    opts = {**opts, **(extra or {})}
+    with warnings.catch_warnings():
+        warnings.simplefilter("ignore")
+        p = OpenAPIParser(
+            json.dumps(spec),
+            data_model_type=mod.BaseModel,
+            data_model_root_type=mod.RootModel if style == "v2" else mod.CustomRootType,
+            data_type_manager_type=mod.DataTypeManager,
+            data_model_field_type=mod.DataModelField,
+            openapi_scopes=[OpenAPIScope.Schemas, OpenAPIScope.Paths, OpenAPIScope.Parameters],
+            **opts,
+        )
+        p.parse_raw()
+    return p
+
+
 CON_TYPES = {"conint": "integer", "confloat": "number", "constr": "string"}
 ALIAS_TYPES = {
     "PositiveInt": ("integer", ("gt", 0.0)),
@@ -491,8 +552,8 @@ def _cons_from(d: dict) -> tuple:
 
 
 class RealIR:
-    def __init__(self, doc: dict, style: str, routing: str, extra: dict | None = None) -> None:
-        self.p = _parser(doc, style, routing, extra)
+    def __init__(self, doc: dict, style: str, routing: str, extra: dict | None = None, openapi: bool = False) -> None:
+        self.p = _openapi_parser(doc, style, routing, extra) if openapi else _parser(doc, style, routing, extra)
         # the discriminator pass of Parser.parse() (it rewrites the tag member of the alternatives' classes)
         from datamodel_code_generator.imports import Imports
 
@@ -528,6 +589,10 @@ class RealIR:
             if self.def_name(path) == name:
                 return r
         return None
+
+    def model_by_suffix(self, suffix: str):
+        found = [r for r in self.p.results if r.class_name.endswith(suffix)]
+        return found[0] if len(found) == 1 else None
 
     def root_model(self):
         for r in self.p.results:
